@@ -144,9 +144,68 @@ require_cert = true
     return dict(confirmed=False, reason="TOML rules are reproduced field by field")
 
 
+def run_wiring():
+    """the running server: start_server() with the rules of a configuration, listener creation stubbed, a request fed to the protocol
+    the listener would serve - every configured rule (also one with an EMPTY allow-list, alone in the file) is enforced"""
+    import asyncio
+    import contextlib
+    import io
+    from nauyaca.server import server as srv
+    from nauyaca.server.config import ServerConfig
+    from replay.server_bank import FakeTransport
+    root = make_capsule()
+
+    class Stop(Exception):
+        pass
+    rulesets = [[CertificateAuthPathRule("/admin/", require_cert=False, allowed_fingerprints=[])], [CertificateAuthPathRule("/admin/", require_cert=False, allowed_fingerprints=set())],
+                [CertificateAuthPathRule("/admin/", require_cert=True)], [CertificateAuthPathRule("/admin/", require_cert=False, allowed_fingerprints={FP_OK})],
+                [CertificateAuthPathRule("/public/", require_cert=False), CertificateAuthPathRule("/admin/", require_cert=False, allowed_fingerprints=[])]]
+    for rules in rulesets:
+        seen = {}
+
+        async def go():
+            loop = asyncio.get_running_loop()
+
+            async def create_server(factory, host=None, port=None, ssl=None, **kw):
+                seen["factory"] = factory
+                raise Stop()
+            loop.create_server = create_server
+            cfg = ServerConfig(host="localhost", port=1965, document_root=root)
+            try:
+                with contextlib.redirect_stdout(io.StringIO()):
+                    await srv.start_server(cfg, certificate_auth_config=CertificateAuthConfig(path_rules=rules), enable_rate_limiting=False)
+            except Stop:
+                pass
+            proto = seen["factory"]()
+            inner = proto
+            if type(proto).__name__ == "TLSServerProtocol":        # PyOpenSSL back end: the inner protocol is what handles requests
+                inner = proto.inner_protocol_factory()
+            t = FakeTransport(peer=("203.0.113.9", 4242))
+            t.proto = inner
+            inner.connection_made(t)
+            inner.data_received(b"gemini://capsule.example/admin/x.gmi\r\n")
+            for _ in range(10):
+                await asyncio.sleep(0)
+            if getattr(inner, "timeout_handle", None):
+                inner.timeout_handle.cancel()
+            return t.out
+        out = asyncio.run(go())
+        if not (out.startswith(b"60 ") or out.startswith(b"61 ")):
+            return dict(confirmed=True, input=dict(rules=[repr(r) for r in rules], request="gemini://capsule.example/admin/x.gmi", certificate=None, via="start_server()"),
+                        observed=dict(bytes_on_wire=repr(out[:60])), clause="what is written in the configuration is what the running server enforces (an empty allow-list admits nobody)")
+    return dict(confirmed=False, reason="start_server enforces every configured rule")
+
+
 def main():
     p = load()
     ob = p.get("obligation", "")
+    if ob == "__bounded__":
+        try:
+            r = run_wiring()
+        except Exception as e:  # noqa: BLE001
+            r = dict(confirmed=False, reason=f"wiring scenario not runnable: {type(e).__name__}: {e}")
+        if r.get("confirmed"):
+            done(**r)
     if "get_certificate_auth_config" in ob:
         done(**run_config())
     if ob == "__bounded__":
